@@ -330,7 +330,13 @@ std::vector<float> spreadCells(const std::vector<float> &targets,
 
 std::vector<float> HierarchicalDensityPlacement::spreadCoordX(
     const std::vector<float> &target) const {
+  // Cells without area are in no bin: they keep their target, brought back
+  // inside the placement area
   std::vector<float> ret(nbCells(), 0.0f);
+  Rectangle area = placementArea();
+  for (int c = 0; c < nbCells(); ++c) {
+    ret[c] = std::min(std::max(target[c], (float)area.minX), (float)area.maxX);
+  }
   for (int i = 0; i < nbBinsX(); ++i) {
     for (int j = 0; j < nbBinsY(); ++j) {
       std::vector<float> binTargets;
@@ -351,7 +357,13 @@ std::vector<float> HierarchicalDensityPlacement::spreadCoordX(
 
 std::vector<float> HierarchicalDensityPlacement::spreadCoordY(
     const std::vector<float> &target) const {
+  // Cells without area are in no bin: they keep their target, brought back
+  // inside the placement area
   std::vector<float> ret(nbCells(), 0.0f);
+  Rectangle area = placementArea();
+  for (int c = 0; c < nbCells(); ++c) {
+    ret[c] = std::min(std::max(target[c], (float)area.minY), (float)area.maxY);
+  }
   for (int i = 0; i < nbBinsX(); ++i) {
     for (int j = 0; j < nbBinsY(); ++j) {
       std::vector<float> binTargets;
